@@ -349,7 +349,11 @@ def _sec_steady_search(tree, f):
     extra = [s for s in pre if s not in known]
     if extra:
         raise Unsupported(f"integrate_to_steady_state: statements before the loop: {extra}")
-    lb = loops[0].body
+    lb = list(loops[0].body)
+    # since the repair of F-C15-3 the loop may ask `integ.successful()` after the step and return IntegrationFailure: for
+    # the time bookkeeping that is one more way to fail (nothing recorded, simulator failed), like NoSteadyState
+    if len(lb) == 6 and _u(lb[1]) == "if not integ.successful():\n    return Result(IntegrationFailure())":
+        del lb[1]
     if len(lb) != 5 or _u(lb[4]) != "t += step_size" or not _u(lb[0]).startswith("y2 = "):
         raise Unsupported("integrate_to_steady_state: loop body")
     hit = lb[2]
